@@ -40,6 +40,8 @@ INC_NAMES = ["..", "../..", "room/../..", "x/..//../outside.txt", "x/..//../../e
              "../a/a", "a/", ".//../outside.txt", "../../outside.txt", "a/../../outside.txt", "/..", "/../outside.txt"]
 INH_NAMES = ["/d/obj", "d/obj.c", "../x", "/a/a", "aa", "/nonexist", "//d/obj", "/d//obj", "/d/../d/obj", "a", "/..",
              "../../x", "/d/obj#1", "."]
+BIN_NAMES = ["/d/b1", "/a/aa/b2", "b3", "/d/sub/b4.c", "/d//b5", "../b6", "/d/../b7", "/d/obj", "/new/dir/deep/b8", "/d/./b9",
+             "/d/b#10", "/..", "/d/sub/..b11", "/d/b12.c.c", "//d/b13", "/" + "d/" * 20 + "b14", "/d/" + "n" * 200]
 COMPS = [".", "..", "...", "a", "aa", "b.c", "", ".hidden", "x#y", "..a", "a..", "d", "f.txt", "sub", "obj.c", "save.o",
          "longname-0123456789", "#", "a.c.c", "*"]
 
@@ -125,7 +127,8 @@ class C15(Prop):
                 "NV.C15.check_valid_path_absent_or_odd_approves", "NV.C15.mediation_propagates_errors", "NV.C15.cvp_call_table", "NV.C15.legal_path_literals",
                 "NV.C15.save_tmp_format",
                 "NV.C15.mediated_sites", "NV.C15.inventory_covers_efuns", "NV.C15.efun_surface_modelled",
-                "NV.C15.ext_callees_classified", "NV.C15.fs_callees_cover",
+                "NV.C15.ext_callees_classified", "NV.C15.fs_callees_cover", "NV.C15.path_function_literals",
+                "NV.C15.efun_libc_table", "NV.C15.binary_model_satisfies_spec",
                 "NV.C15.buffer_sizes", "NV.C15.buffer_guards_present", "NV.C15.getdir_path_not_truncated",
                 "NV.C15.getdir_entry_fits", "NV.C15.getdir_long_path_refused", "NV.C15.ed_getfn_exact",
                 "NV.C15.rename_newfrom_fits", "NV.C15.rename_copy_fits", "NV.C15.segOk_entryStats", "NV.C15.segOk_move",
@@ -252,6 +255,8 @@ class C15(Prop):
         env = {"MAX_PATH_LEN": macro(fu, "file_utils.c", "MAX_PATH_LEN"),
                "MAX_FNAME_SIZE": macro(fu, "file_utils.c", "MAX_FNAME_SIZE"),
                "MAXFNAME": macro(edh, "ed.h", "MAXFNAME")}
+        bn = src("lib/lpc/program/binaries.c")
+        b_sb, b_lb = body(bn, "binaries.c", "save_binary"), body(bn, "binaries.c", "load_binary")
         b_gd, b_rn, b_cp, b_fn, b_es = (body(fu, "file_utils.c", "get_dir"), body(fu, "file_utils.c", "do_rename"),
                                         body(fu, "file_utils.c", "copy_file"), body(edc, "ed.c", "getfn"),
                                         body(edc, "ed.c", "ed_start"))
@@ -263,7 +268,10 @@ class C15(Prop):
                 ("renameNewfromSize", size(b_rn, "do_rename", "newfrom", env), "do_rename: `char newfrom[..]`"),
                 ("renameNewtoSize", size(b_rn, "do_rename", "newto", env), "do_rename: `char newto[..]`"),
                 ("cpNewtoSize", size(b_cp, "copy_file", "newto", env), "copy_file: `char newto[..]`"),
-                ("edFileSize", size(b_fn, "getfn", "file", env), "getfn: `static char file[..]`")]
+                ("edFileSize", size(b_fn, "getfn", "file", env), "getfn: `static char file[..]`"),
+                ("saveBinaryNameSize", size(b_sb, "save_binary", "file_name_buf", env), "save_binary: `char file_name_buf[..]`"),
+                ("loadBinaryNameSize", size(b_lb, "load_binary", "file_name_buf", env),
+                 "load_binary: `char file_name_buf[..]` (two names: each gets one half)")]
         # the guards, as source text (whitespace-insensitive); name -> (function body, text)
         guards = [("get_dir", b_gd, "strlen (path) > MAX_PATH_LEN"),
                   ("get_dir", b_gd, "strncpy (temppath, path, MAX_FNAME_SIZE + MAX_PATH_LEN + 1)"),
@@ -275,7 +283,10 @@ class C15(Prop):
                   ("getfn", b_fn, "cp >= file + MAXFNAME - 1"),
                   ("getfn", b_fn, "strlen (file2) >= MAXFNAME"),
                   ("getfn", b_fn, "strncpy (file, ret->u.string, sizeof file - 1)"),
-                  ("ed_start", b_es, "strncpy (P_FNAME, file_arg, MAXFNAME - 1)")]
+                  ("ed_start", b_es, "strncpy (P_FNAME, file_arg, MAXFNAME - 1)"),
+                  ("save_binary", b_sb, "strlen (CONFIG_STR (__SAVE_BINARIES_DIR__)) + strlen (prog->name) + 2 > sizeof (file_name_buf)"),
+                  ("load_binary", b_lb, "strlen (CONFIG_STR (__SAVE_BINARIES_DIR__)) + strlen (name) + 2 > sizeof (file_name_buf) / 2"),
+                  ("load_binary", b_lb, "strlen (CONFIG_STR (__SAVE_BINARIES_DIR__)) + strlen (buf) + 2 > sizeof (file_name_buf) / 2")]
         squeeze = lambda t: re.sub(r"\s+", "", t)
         rows = []
         for fn, btext, g in guards:
@@ -328,6 +339,8 @@ class C15(Prop):
 
     def run_impl(self, ctx, cases):
         self.fresh_mudlib(ctx)
+        binc = [c for c in cases if c.lines and c.lines[0] == "binaries on"]
+        cases = [c for c in cases if not (c.lines and c.lines[0] == "binaries on")]
         normal = [c for c in cases if not (c.lines and c.lines[0] == "master absent")]
         absent = [c for c in cases if c.lines and c.lines[0] == "master absent"]
         res = E.run_harness(self.exe, self.conf, normal, ctx.rundir, args=("--timeout", "120")) if normal else {}
@@ -337,6 +350,12 @@ class C15(Prop):
             conf2 = self.conf + ".absent"
             open(conf2, "w").write(open(self.conf).read().replace("/c15/master.c", "/c15/master_absent.c"))
             res.update(E.run_harness(self.exe, conf2, absent, ctx.rundir, args=("--timeout", "120")))
+        if binc:
+            # third harness process: SaveBinaryDir configured (#pragma save_binary is honoured)
+            self.fresh_mudlib(ctx)
+            conf3 = self.conf + ".bin"
+            open(conf3, "w").write(open(self.conf).read() + "SaveBinaryDir\t/bin\n")
+            res.update(E.run_harness(self.exe, conf3, binc, ctx.rundir, args=("--timeout", "120")))
         if len(cases) > 50:          # the main evaluation (not a shrink / replay round)
             touched = {}
             for lines in res.values():
@@ -394,6 +413,7 @@ class C15(Prop):
         for i, n in enumerate(INH_NAMES):
             mk("inherit-%d" % i, ["inh [t/y.c] " + br(n)])
         mk("load", ["ld " + br(n) for n in INH_NAMES + ["/a/a.c", "d/obj.c.c", "/t/none", "a/"]])
+        mk("binaries", ["binaries on"] + ["ldb " + br(n) for n in BIN_NAMES])
         return B
 
     def batches(self, maxlen):
@@ -521,6 +541,15 @@ class C15(Prop):
                         continue
                     lines.append("inc %s %s" % (br(rng.choice(["t/x.c", "t/u/x.c"])), br(nm)))
             out.append(E.Case("g%d" % i, lines, {"origin": "generated"}))
+        for i in range(max(1, n // 40)):     # saved binaries: random object names
+            names = []
+            for _ in range(8):
+                nm = "/".join(rng.choice(["d", "a", "aa", "sub", "new", "b", "b.c", "..", ".", "", "x#y", "..b", "obj"])
+                              for _ in range(rng.range(1, 4)))
+                if nm.strip("/.") == "":
+                    nm = "d/b"
+                names.append(("/" if rng.chance(3, 4) else "") + nm)
+            out.append(E.Case("gb%d" % i, ["binaries on"] + ["ldb " + br(x) for x in names], {"origin": "generated"}))
         return out
 
     def mutate_around(self, case, rng, n):
